@@ -10,9 +10,11 @@ import (
 	"flag"
 	"fmt"
 	"io"
+	"math"
 	"math/rand"
 	"os"
 	"runtime"
+	"strconv"
 	"sync"
 
 	simdjson "github.com/minio/simdjson-go"
@@ -59,7 +61,28 @@ func runOps(seed int64, nops int, flush, slots, thresh int) (sigs []string) {
 		}
 	}()
 	for k := 0; k < nops; k++ {
-		switch op := r.Intn(7); op {
+		switch op := r.Intn(9); op {
+		case 7, 8: // a float-heavy document marshalled (number formatting scratch space)
+			var text []byte
+			text = append(text, '[')
+			for j := 0; j < 150; j++ {
+				if j > 0 {
+					text = append(text, ',')
+				}
+				f := math.Float64frombits(r.Uint64()&0x7fefffffffffffff) * 0
+				f = (r.Float64() - 0.5) * math.Pow10(r.Intn(24)-6)
+				text = strconv.AppendFloat(text, f, 'g', -1, 64)
+			}
+			text = append(text, ']')
+			pj, err := simdjson.Parse(text, reuse)
+			if err != nil {
+				sigs = append(sigs, "float-parse-error:"+err.Error())
+				continue
+			}
+			reuse = pj
+			it := pj.Iter()
+			mb, merr := it.MarshalJSON()
+			sigs = append(sigs, sig("floats", string(mb), merr))
 		case 0, 1: // small parse, every reader
 			o := gen.Default
 			v := gen.Value(r, o)
@@ -211,6 +234,7 @@ func vconc(args []string) error {
 		mu.Unlock()
 	})
 	// together
+	fmt.Fprintln(os.Stderr, "PHASE concurrent: every worker sequence has completed alone without error")
 	got := make([][]string, n)
 	var wg sync.WaitGroup
 	start := make(chan struct{})
